@@ -53,6 +53,33 @@ def _sympy_of(e):
     return S(e) if isinstance(e, (int, Fraction)) else e
 
 
+def expand_numer(e):
+    """Distributes sums that occur as factors with a positive exponent (numerators);
+    denominators (negative exponents) are left untouched, unlike sympy's expand."""
+    from sympy import Add, Mul, Pow
+    if isinstance(e, Add):
+        return Add(*[expand_numer(a) for a in e.args])
+    if isinstance(e, Pow) and isinstance(e.args[0], Add) and e.args[1].is_Integer \
+            and e.args[1] > 0:
+        return expand_numer(Mul(e.args[0], Pow(e.args[0], e.args[1] - 1)))
+    if isinstance(e, Mul):
+        args = list(e.args)
+        for k, f in enumerate(args):
+            base = None
+            if isinstance(f, Add):
+                base, rest = f, None
+            elif isinstance(f, Pow) and isinstance(f.args[0], Add) and f.args[1].is_Integer \
+                    and f.args[1] > 0:
+                base, rest = f.args[0], Pow(f.args[0], f.args[1] - 1)
+            if base is not None:
+                others = args[:k] + args[k + 1:]
+                if rest is not None and rest != 1:
+                    others.append(rest)
+                return Add(*[expand_numer(Mul(*others, t)) for t in base.args])
+        return e
+    return e
+
+
 def default_target(irs):
     """Union over all terms of the indices occurring exactly once."""
     T = set()
@@ -71,7 +98,7 @@ def compare(A, B, target, model: Model, *, val_opts=None, timeout_ms=20000,
     """
     out = Outcome()
     refA = A if callable(A) and not hasattr(A, "args") else None
-    A, B = (None if refA else _sympy_of(A)), _sympy_of(B)
+    A, B = (None if refA else expand_numer(_sympy_of(A))), expand_numer(_sympy_of(B))
     t0 = time.time()
     irA, irB = ([] if refA else IR.expr_ir(A)), IR.expr_ir(B)
     vars_ = Vars()
